@@ -124,16 +124,28 @@ def flo_script(case):
                 L.append("      go next if recurred >= %d" % place["host"][i])
         L.append("")
     L.append("  framer rd be %s first F0" % {"active": "active", "aux": "aux", "clone": "moot"}[place["kind"]])
-    for i, f in enumerate(case["frames"]):
-        L.append("    frame F%d%s" % (i, "" if fr_over(f) is None else " in F%d" % fr_over(f)))
-        for v in fr_verbs(f):
-            if v[0] == "T":
-                L.append("      timeout %s" % v[1])
-            elif v[0] == "R":
-                L.append("      repeat %s" % v[1])
-            else:
-                far = v[1] if v[1] in ("next", "me") else "F%d" % v[1]
-                L.append("      go %s%s" % (far, (" if " + " and ".join(flo_need(n) for n in v[2])) if v[2] else ""))
+    def verbs_of(pfx, frames):
+        for i, f in enumerate(frames):
+            L.append("    frame %s%d%s" % (pfx, i, "" if fr_over(f) is None else " in %s%d" % (pfx, fr_over(f))))
+            if pfx == "F":
+                # reports every entry of a frame of the timed framer (the outline changed in this tick)
+                L.append("      do fb ent at enter")
+            for v in fr_verbs(f):
+                if v[0] == "T":
+                    L.append("      timeout %s" % v[1])
+                elif v[0] == "R":
+                    L.append("      repeat %s" % v[1])
+                elif v[0] == "S":
+                    L.append("      aux helper if %s" % " and ".join(flo_need(n) for n in v[1]))
+                elif v[0] == "D":
+                    L.append("      done me")
+                else:
+                    far = v[1] if v[1] in ("next", "me") else "%s%d" % (pfx, v[1])
+                    L.append("      go %s%s" % (far, (" if " + " and ".join(flo_need(n) for n in v[2])) if v[2] else ""))
+    verbs_of("F", case["frames"])
+    if case.get("helper"):
+        L += ["", "  framer helper be aux first H0"]
+        verbs_of("H", case["helper"])
     L += ["", "  framer obs be active first o", "    frame o", "      do fb obs",
           ""]
     return "\n".join(L)
@@ -158,20 +170,32 @@ def drv_line(case, mode, start=0, nobs=None):
         if not isinstance(n, int):
             raise ValueError(text)
         return str(n)
-    out = ["run" + mode, tnum(case["period"]), str(start), str(nobs), str(len(case["frames"]))]
-    for f in case["frames"]:
-        verbs = fr_verbs(f)
-        out.append("-" if fr_over(f) is None else str(fr_over(f)))
-        out.append(str(len(verbs)))
-        for v in verbs:
-            if v[0] == "T":
-                out += ["T", tnum(v[1])]
-            elif v[0] == "R":
-                out += ["R", count(v[1])]
-            else:
-                out += ["G", str(v[1]), str(len(v[2]))]
-                for nd in v[2]:
-                    out += [nd[0], nd[1], tnum(nd[2]) if nd[0] == "E" else str(int(nd[2]))]
+    def needs(nds):
+        o = [str(len(nds))]
+        for nd in nds:
+            o += [nd[0], nd[1], tnum(nd[2]) if nd[0] == "E" else str(int(nd[2]))]
+        return o
+
+    def frames(fs):
+        o = [str(len(fs))]
+        for f in fs:
+            verbs = [v for v in fr_verbs(f) if v[0] != "D"]
+            o.append("-" if fr_over(f) is None else str(fr_over(f)))
+            o.append(str(len(verbs)))
+            for v in verbs:
+                if v[0] == "T":
+                    o += ["T", tnum(v[1])]
+                elif v[0] == "R":
+                    o += ["R", count(v[1])]
+                elif v[0] == "S":
+                    o += ["S"] + needs(v[1])
+                else:
+                    o += ["G", str(v[1])] + needs(v[2])
+        return o
+    out = ["run" + mode, tnum(case["period"]), str(start), str(nobs)] + frames(case["frames"])
+    helper = case.get("helper") or []
+    done = [i for i, f in enumerate(helper) if any(v[0] == "D" for v in fr_verbs(f))]
+    out += ["H"] + frames(helper) + [str(len(done))] + [str(i) for i in done]
     return " ".join(out)
 
 
@@ -186,15 +210,22 @@ def exact_ok(case):
 
 
 def bad_build(case):
-    n = len(case["frames"])
-    for i, f in enumerate(case["frames"]):
-        for v in fr_verbs(f):
-            far = "next" if v[0] in ("T", "R") else v[1]
-            if far == "next" and i + 1 >= n:
-                return True
-            if isinstance(far, int) and far >= n:
-                return True
+    for frames in (case["frames"], case.get("helper") or []):
+        n = len(frames)
+        for i, f in enumerate(frames):
+            for v in fr_verbs(f):
+                if v[0] in ("S", "D"):
+                    continue
+                far = "next" if v[0] in ("T", "R") else v[1]
+                if far == "next" and i + 1 >= n:
+                    return True
+                if isinstance(far, int) and far >= n:
+                    return True
     return False
+
+
+def has_susp(case):
+    return any(v[0] == "S" for f in case["frames"] for v in fr_verbs(f))
 
 
 def unf(h):
@@ -252,6 +283,24 @@ def check_trace(case, line, start=0, count=None, who="rd"):
         prev = obs[i - 1][0]
         el = obs[i][4] - obs[e][4]                   # store time since the outline last changed
         rc = i - e                                   # completed iterations since then
+        if has_susp(case):
+            # with a conditional auxiliary the outline is truncated and restored while the helper runs; which
+            # conditions are evaluated then depends on the helper.  What the property says regardless:
+            far_of = lambda home, v: home + 1 if v[0] in ("T", "R") or v[1] == "next" else home if v[1] == "me" else v[1]
+            if obs[i][1]:
+                # a transition was taken: through a verb of the active outline whose condition holds on the
+                # clocks counted from the last outline change, and the clocks restart
+                fars = set(far_of(home, v) for home in outline(frames, prev) for v in fr_verbs(frames[home])
+                           if v[0] != "S" and verb_fires(v, el, rc))
+                if obs[i][0] not in fars or (obs[i][2], obs[i][3]) != (0.0, 0):
+                    return ("%s tick %d (frame F%d entered at tick %d): elapsed %r recurred %d admit a transition to %s "
+                            "with restarted clocks, implementation %r" % (who, start + i, prev, start + e, el, rc, sorted(fars), obs[i][:4]))
+                e = i
+            elif obs[i][:4] != (prev, False, el, rc):
+                # no transition taken - whatever the conditional auxiliary did in this tick - the clocks run on
+                return ("%s tick %d (frame F%d entered at tick %d, no frame entered now): clocks should read elapsed %r "
+                        "recurred %d, implementation %r" % (who, start + i, prev, start + e, el, rc, obs[i][:4]))
+            continue
         fired = None
         for home in outline(frames, prev):            # conditions of the active outline, top down
             for v in fr_verbs(frames[home]):
@@ -365,6 +414,20 @@ def gen_case(rng, tier):
         frames = nested
     case = {"period": period, "nticks": nticks, "frames": frames}
     r = rng.random()
+    if r >= 0.5 and rng.random() < 0.45:
+        # a conditional auxiliary on a timed frame or an over frame (ordinary framer only: an original
+        # auxiliary belongs to one main frame at a time)
+        k = rng.randrange(nfr)
+        verbs = fr_verbs(frames[k])
+        cond = [rng.choice([["C", "ge", rng.choice([0, 1, 2, 3])], ["E", "ge", gen_lit_time(rng, period).lstrip("-")],
+                            ["C", "eq", rng.choice([1, 2])]])]
+        verbs.insert(rng.randrange(len(verbs) + 1), ["S", cond])
+        helper = []
+        for j in range(rng.choice([0, 1, 1, 2])):
+            helper.append([rng.choice([["R", str(rng.choice([1, 2, 3, 4]))], ["T", gen_lit_time(rng, period).lstrip("-")],
+                                       ["G", "next", [["C", "ge", rng.choice([1, 2])]]]])])
+        helper.append([["D"]])
+        case["helper"] = helper
     if r < 0.2:
         host = [rng.choice([1, 2, 3])] if rng.random() < 0.5 else []
         case["place"] = {"kind": "aux", "host": host, "at": rng.randrange(len(host) + 1)}
@@ -421,7 +484,11 @@ class CHECK(core.Check):
                   "on exactly those values, through the first such), C11_timeout_fires_first and C11_repeat_fires_first "
                   "(left at the first evaluation with elapsed >= T resp. recurred >= N, not earlier; repeat: exactly max(1,N) "
                   "iterations), C11_verbs_desugar / C11_resolved_timeout_frame (timeout v = go next if elapsed >= abs v, "
-                  "repeat v = go next if recurred >= int(abs v)), C11_lone_frame_transitions and C11_outer_transition_first "
+                  "repeat v = go next if recurred >= int(abs v)), C11_lone_frame_transitions and C11_outer_transition_first; "
+                  "conditional auxiliaries: C11_clocks_any_decision / C11_clocks_with_conditional_aux (the clock law for the "
+                  "machine with `aux helper if …`, for every decision function), C11_suspension_is_not_an_outline_change "
+                  "(a tick without a taken transition - helper started, iterated or finished - keeps stamp and counts on), "
+                  "C11_plain_machine_is_instance "
                   "(nested frames: the transitions of the active outline apply top down, an over frame's timeout sees the "
                   "clock that every inner transition restarts). Exact time (Int, Skedder stamps 0,P,2P,…, instance entered at any tick s, every P>0, every "
                   "T): C11_elapsed_is_k_periods, C11_timeout_tick_exact, C11_first_multiple_is_ceil (transition tick = "
@@ -459,6 +526,18 @@ class CHECK(core.Check):
                               {"kind": "clone", "host": [3], "tags": [["w1", 0], ["w2", 1]]}):
                     out.append({"period": period, "nticks": 12, "frames": [[["T", txt]], [["G", 0, []]]], "place": place, "origin": "exhaustive"})
                     out.append({"period": period, "nticks": 12, "frames": [[["R", str(k)]], [["G", 0, []]]], "place": place, "origin": "exhaustive"})
+                # a conditional auxiliary (`aux helper if recurred >= 2`; the helper runs 3 ticks) on the timed frame,
+                # before and after the timeout / repeat line, and on the over frame of the timed frame: the clocks
+                # must run through the suspension
+                hp = [[["R", "3"]], [["D"]]]
+                sv = ["S", [["C", "ge", 2]]]
+                for verb in (["T", txt], ["R", str(k)]):
+                    out.append({"period": period, "nticks": 14, "frames": [[sv, verb], [["G", 0, []]]], "helper": hp, "origin": "exhaustive"})
+                    out.append({"period": period, "nticks": 14, "frames": [[verb, sv], [["G", 0, []]]], "helper": hp, "origin": "exhaustive"})
+                    out.append({"period": period, "nticks": 14, "helper": hp, "origin": "exhaustive", "frames": [
+                        {"over": None, "verbs": [sv]}, {"over": 0, "verbs": [verb]}, {"over": None, "verbs": [["G", 0, []]]}]})
+                    out.append({"period": period, "nticks": 14, "helper": hp, "origin": "exhaustive", "frames": [
+                        {"over": None, "verbs": [verb]}, {"over": 0, "verbs": [sv]}, {"over": None, "verbs": [["G", 0, []]]}]})
                 if tier == "thorough":
                     for d in (2, 4, 8):
                         for sg in (-1, 1):
@@ -491,11 +570,17 @@ class CHECK(core.Check):
                 return ["ERR no framer %s" % name] * (per * len(insts))
             watch.append((fr, store.fetch("framer.%s.state.elapsed" % name), store.fetch("framer.%s.state.recurred" % name), []))
 
+        ents = {}
+
+        def entered(name):
+            ents[name] = ents.get(name, 0) + 1
+
         def observe(st):
             for fr, el, rc, rows in watch:
                 if fr.active is not None:                   # an aux / clone is only there while its main frame is
-                    rows.append((int(fr.active.name[1:]), rc.value == 0, el.value, rc.value, st.stamp))
-        flob.run(sk, obs=observe, nticks=case["nticks"])
+                    rows.append((int(fr.active.name[1:]), ents.get(fr.name, 0) > 0, el.value, rc.value, st.stamp))
+            ents.clear()
+        flob.run(sk, obs=observe, nticks=case["nticks"], ent=entered)
 
         def units(x):
             f = Fraction(x) * Q
@@ -532,17 +617,28 @@ class CHECK(core.Check):
     def bucket(self, case, out):
         if out and out[0] == "ERR build":
             return "build-error"
-        kinds = set(v[0] for f in case["frames"] for v in fr_verbs(f))
+        kinds = set(v[0] for f in case["frames"] for v in fr_verbs(f) if v[0] != "S")
         k = "+".join(sorted({"T": "timeout", "R": "repeat", "G": "go"}[x] for x in kinds))
         nested = any(fr_over(f) is not None for f in case["frames"])
         place = (case.get("place") or {"kind": "active"})["kind"]
-        return "%s,P=%s%s,%s" % (k, case["period"], ",nested" if nested else "", place)
+        return "%s,P=%s%s%s,%s" % (k, case["period"], ",nested" if nested else "", ",cond-aux" if has_susp(case) else "", place)
 
     def shrink_candidates(self, case):
         def clone():
             return json.loads(json.dumps(case))
         if case["nticks"] > 2:
             c = clone(); c["nticks"] -= 1; yield c
+        if has_susp(case):
+            c = clone()
+            for f in c["frames"]:
+                fr_verbs(f)[:] = [v for v in fr_verbs(f) if v[0] != "S"]
+            c.pop("helper", None)
+            if all(fr_verbs(f) for f in c["frames"]) or True:
+                yield c
+            if len(case["helper"]) > 1:
+                c = clone(); del c["helper"][0]
+                if not bad_build(c):
+                    yield c
         pl = case.get("place")
         if pl and pl["kind"] == "clone" and len(pl["tags"]) > 1:
             c = clone(); c["place"]["tags"].pop(); yield c
